@@ -875,6 +875,79 @@ func runStorage(r *mon.Run, seq []stRec, q *int64) {
 	}
 }
 
+// stBig is one random history over a larger universe: addresses with dozens of names, names with dozens of
+// addresses (implementations keep small and large per-key sets differently).
+type stBig struct {
+	NAddrs int    `json:"addrs"`
+	NNames int    `json:"names"`
+	Steps  int    `json:"steps"`
+	Seed   uint64 `json:"seed"`
+}
+
+func runStorageBig(r *mon.Run, c stBig, q *int64) {
+	rng := rand.New(rand.NewPCG(c.Seed, 0x57))
+	s, _ := hostsfile.NewDefaultStorage()
+	m := newModel()
+	addr := func(i int) netip.Addr {
+		if i%2 == 0 {
+			return netip.AddrFrom4([4]byte{10, 0, byte(i >> 8), byte(i)})
+		}
+		return netip.AddrFrom16([16]byte{0x20, 0x01, 0xd, 0xb8, 14: byte(i >> 8), 15: byte(i)})
+	}
+	name := func(i, variant int) string {
+		n := fmt.Sprintf("n%d.example", i)
+		switch variant {
+		case 1:
+			return strings.ToUpper(n)
+		case 2:
+			return "N" + n[1:]
+		}
+		return n
+	}
+	var hist []string
+	for step := 0; step < c.Steps; step++ {
+		a := addr(rng.IntN(c.NAddrs))
+		if rng.IntN(3) == 0 {
+			a = addr(0) // one address that collects names
+		}
+		var names []string
+		for k := []int{0, 1, 1, 2, 3, 9, 12}[rng.IntN(7)]; k > 0; k-- {
+			i := rng.IntN(c.NNames)
+			if rng.IntN(4) == 0 {
+				i = 0 // one name that collects addresses
+			}
+			names = append(names, name(i, rng.IntN(3)))
+		}
+		hist = append(hist, fmt.Sprintf("Add{%v %q}", a, names))
+		s.Add(&hostsfile.Record{Addr: a, Names: names, Source: "big"})
+		m.add(a, names)
+		if step%4 != 3 && step != c.Steps-1 {
+			continue
+		}
+		what := ""
+		for i := 0; i <= c.NAddrs && what == ""; i++ {
+			*q++
+			if got := s.ByAddr(addr(i)); !slices.Equal(got, m.names[addr(i)]) {
+				what = fmt.Sprintf("ByAddr(%v)=%q, model %q", addr(i), got, m.names[addr(i)])
+			}
+		}
+		for i := 0; i <= c.NNames && what == ""; i++ {
+			*q++
+			v := rng.IntN(3)
+			if got := s.ByName(name(i, v)); !slices.Equal(got, m.addrs[name(i, 0)]) {
+				what = fmt.Sprintf("ByName(%q)=%v, model %v", name(i, v), got, m.addrs[name(i, 0)])
+			}
+		}
+		if what != "" {
+			if len(hist) > 30 {
+				hist = append([]string{fmt.Sprintf("... %d earlier Adds", len(hist)-30)}, hist[len(hist)-30:]...)
+			}
+			r.Violation(fmt.Sprintf("storage-big:%v", c), fmt.Sprintf("DefaultStorage over %d addresses and %d names (seed %d) after [%s]: %s", c.NAddrs, c.NNames, c.Seed, strings.Join(hist, "; "), what), c)
+			return
+		}
+	}
+}
+
 func TestStorage(t *testing.T) {
 	r := mon.Start("C08", "storage")
 	var rc []stRec
@@ -883,7 +956,12 @@ func TestStorage(t *testing.T) {
 			t.Fatal(err)
 		}
 		var q int64
-		runStorage(r, rc, &q)
+		var bc stBig
+		if ok2, _ := mon.ReplayCase("storage", &bc); ok2 && bc.Steps > 0 {
+			runStorageBig(r, bc, &q)
+		} else {
+			runStorage(r, rc, &q)
+		}
 		r.Eval(q)
 		r.NontrivialN(2)
 		if r.Finish() > 0 {
@@ -931,6 +1009,27 @@ func TestStorage(t *testing.T) {
 		r.NontrivialN(int64(hi - lo))
 		r.Count("add_sequences", int64(hi-lo))
 	})
+	// larger universes
+	{
+		var cases []stBig
+		for _, dims := range [][2]int{{3, 12}, {12, 3}, {6, 40}, {40, 40}, {200, 30}} {
+			for i := 0; i < r.Pick(60, 3000); i++ {
+				cases = append(cases, stBig{NAddrs: dims[0], NNames: dims[1], Steps: 60, Seed: r.Seed*31337 + uint64(len(cases))})
+			}
+		}
+		mon.Parallel(len(cases), func(w, lo, hi int) {
+			var q int64
+			for i := lo; i < hi; i++ {
+				runStorageBig(r, cases[i], &q)
+				if r.TooMany() {
+					break
+				}
+			}
+			r.Eval(q)
+			r.NontrivialN(int64(hi - lo))
+			r.Count("large_universe_histories", int64(hi-lo))
+		})
+	}
 	// storage fed through Parse: NewDefaultStorage(reader) equals Add-by-Add
 	var q int64
 	txt := "1.2.3.4 a.example A.Example\n::1 über.example\nbad\n1.2.3.4 ÜBER.example b.example # c\n\n1.2.3.4\n"
